@@ -98,5 +98,23 @@ def run(chk, replay=None):
                                   {"program": g.text, "debug": dbg, "simc_stdout": out[:400], "simc_stderr": err[:400], "library_error": msg[:300], "exit": p.returncode,
                                    "broken": "simc must exit non-zero with the library's message exactly when the library returns an error"})
     chk.extra["processes_per_program"] = nproc
+    # ---- the constructors of the public API agree: CompiledProgram::new = TemplateProgram::new + instantiate (commit bytes);
+    #      SatisfiedProgram::new = compile + satisfy = satisfy_with_env(.., None) (program and witness bytes)
+    import gen
+    aprogs = corelib.gen_programs(chk, 40 if quick else 300, "gapi", size=30)
+    alines = []
+    for g in aprogs:
+        wr = chk.sub_rng("api/" + g.label)
+        wit = [(n, gen.gen_val(wr, t)) for n, t in g.witnesses]
+        for dbg in (0, 1):
+            alines.append((g, "(apipaths %s %s %s %d)" % (quote(g.text), corelib.bindings_sx([(n, v) for (n, _, v) in g.params]), corelib.bindings_sx(wit), dbg)))
+    for (g, ln), x in zip(alines, impl("core", [l for _, l in alines])):
+        m = re.match(r"\(commit (\S+) (\S+)\) \(redeem (\S+) (\S+) (\S+)\)", x)
+        chk.case(ln, sample={"program": g.text[:120], "outcome": x[:60]})
+        chk.count("api." + ("agree" if m and m.group(1) == m.group(2) and m.group(3) == m.group(4) == m.group(5) else "differ"))
+        if not m or m.group(1) != m.group(2) or not (m.group(3) == m.group(4) == m.group(5)):
+            chk.violation({"class": "nondeterministic", "what": "API paths disagree: %s || %s" % (x[:120], g.text[:160])},
+                          {"cmd": "core", "line": ln, "program": g.text, "implementation": x[:2000],
+                           "broken": "the same source gives different bytes through CompiledProgram::new / TemplateProgram::new + instantiate, or SatisfiedProgram::new / satisfy / satisfy_with_env(None)"})
     chk.extra["rule"] = ("the shipped examples + generated programs + three erroneous texts x {debug off,on}: %d separately started harness processes and 5 repeated in-process compilations must give one "
                          "identical (CMR, encoding); the simc binary built from /repo must print `Program:` + base64 of exactly that encoding and exit 0, or exit non-zero with the library's message") % nproc
